@@ -25,7 +25,9 @@ RULE = ("(a) Hypothesis histories of accepted accesses (all widths, counted and 
         "= loads+stores executed by the ISA reference, hits = reference cache fed that trace. non-trivial = history with >=1 "
         "hit, >=1 miss in a full set and >=1 write miss; programs with >=1 hit and >=1 miss; distinct = hash(case)"
         ' Histories contain reset() (optionally after an uncounted-only prefix); deterministic long histories (2600 ope'
-        'rations) and a 1100-iteration loop take the counters beyond 1000, which must stay plain decimal numbers.')
+        'rations) and a 1100-iteration loop take the counters beyond 1000, which must stay plain decimal numbers. Histories interleave pure '
+        'queries (statistics, cache table, memory table, residency) with the accesses. Programs assembled from source with every kind '
+        'of data declaration: counters and cycles are zero right after loading, then count exactly the executed accesses.')
 ASSUMPTIONS = [
     "whether an uncounted read allocates on a miss is not stated by the property: both readings admissible, consistency required",
     "accesses rejected for crossing a word boundary or leaving the address range are outside the accounting claim",
@@ -43,12 +45,51 @@ def check(case, stats):
             raise Violation(v.clause, case, v.detail)      # report the compact form (the history is derived from it)
         stats.count(case, True, {"kind:long-history"}, sample_tag="long")
         return
+    if case["kind"] == "source":
+        return check_source(case, stats)
     try:
         return check_program(case, stats)
     except ValueError as ex:
         if "invalid literal for int" in str(ex):
             raise Violation("counter-format", case, f"a reported counter is not a plain decimal number: {ex}")
         raise
+
+
+SOURCE_DECLS = ["a: .word 1, 2, 3, 4", "b: .byte 1, 2, 3", "h: .half 7, 8, 9", 's: .string "hey you"', "z: .zero 4", "y: .zero 1", "w: .word 0xFFFFFFFF"]
+
+
+def source_cases():
+    """Deterministic: programs assembled from SOURCE with a data segment of every declaration kind (in rotating order, so each
+    kind comes first once), loaded under data-cache configurations in both modes."""
+    cfgs = cachehist.TINY_GEOMETRIES + [{"idx": 2, "blk": 1, "ways": 2, "type": "wb", "repl": "lru", "pen": 3}, {"idx": 1, "blk": 2, "ways": 4, "type": "wt", "repl": "plru", "pen": 1}]
+    for r in range(len(SOURCE_DECLS)):
+        for ci, cfg in enumerate(cfgs):
+            for mode in ("single", "five"):
+                if (r + ci) % 2 == (mode == "five"):
+                    yield {"kind": "source", "rot": r, "dcache": cfg, "mode": mode}
+
+
+def check_source(case, stats):
+    """Assembling is not executing: right after load_program the data-cache counters read 0/0/False and no cycle has been
+    counted, whatever the data segment declares; the run then counts exactly the executed loads/stores, with the hits of a cold
+    reference cache."""
+    dc = case["dcache"]
+    decls = SOURCE_DECLS[case["rot"]:] + SOURCE_DECLS[:case["rot"]]
+    first = decls[0].split(":")[0]
+    text = ".data\n" + "\n".join(decls) + "\n.text\nla x5, " + first + "\nlw x6, 0(x5)\nlw x7, 4(x5)\nsw x6, 8(x5)\nlw x6, 0(x5)\nlb x7, 9(x5)\n"
+    sim = rvdrive.new_sim(case["mode"], True, dc, None)
+    sim.load_program(text)
+    st0 = sim.get_data_cache_stats()
+    if (str(st0["hits"]), str(st0["accesses"]), bool(st0["last_hit"])) != ("0", "0", False) or sim.state.performance_metrics.cycles != 0:
+        raise Violation("load-counted", case, f"right after load_program: data-cache statistics {st0}, cycles {sim.state.performance_metrics.cycles}\n{text}")
+    core.call_with_limit(sim.run, 60, "run-does-not-return", case, "run() of a straight-line program")
+    base = sim.state.memory.get_address_range().start
+    rc = RefCache(dc["idx"], dc["blk"], dc["ways"], dc["repl"], dc["type"])
+    hits = [rc.read(base), rc.read(base + 4), rc.write(base + 8), rc.read(base), rc.read(base + 9)]
+    st1 = sim.get_data_cache_stats()
+    if (int(st1["accesses"]), int(st1["hits"]), bool(st1["last_hit"])) != (5, sum(hits), bool(hits[-1])):
+        raise Violation("program-hits", case, f"after the run: {st1}; 5 accesses with hits {hits} expected\n{text}")
+    stats.count(case, 0 < sum(hits) < 5, {"kind:source", "dc:" + dc["type"]}, sample_tag="source")
 
 
 def check_program(case, stats):
@@ -162,6 +203,7 @@ def shards(tier, seed):
         for i in range(16):
             items.append({"what": "program", "n": 700, "seed": seed * 1000 + 50 + i})
     items.append({"what": "long"})
+    items.append({"what": "source"})
     items.append({"what": "partial"})
     for i in range(2 if tier == "quick" else 8):
         items.append({"what": "machine", "n": 60 if tier == "quick" else 800, "seed": seed * 1000 + 900 + i})
@@ -181,6 +223,8 @@ def run_shard(item, stats):
         core.run_cases((dict(c, kind="history") for c in cachehist.partial_fill_cases()), check, stats, km)
     elif w == "long":
         core.run_cases(long_cases(), check, stats, km)
+    elif w == "source":
+        core.run_cases(source_cases(), check, stats, km)
     elif w == "tiny":
         geos = [cachehist.TINY_GEOMETRIES[g] for g in item.get("geos", range(8))]
         core.run_cases((dict(c, kind="history") for c in cachehist.tiny_cases(item["len"], item["part"], item["parts"], False, geos)),
